@@ -33,12 +33,16 @@ def Pred.eval : Pred → Val → Bool
   | .isTrue, v => v.truthy
   | .isFalse, v => !v.truthy
 
-/-- `getv(row)` of iterfieldselect: the raw itemgetter value, or `missing` for a short row -/
+/-- one cell of a row, an absent cell being read as `missing` -/
+def cellOr (missing : Val) (r : Row) (i : Nat) : Val :=
+  if r.length ≤ i then missing else getCell r i
+
+/-- `getv(row)` of iterfieldselect: the cell of a single field, the tuple of cells of a compound field;
+    every absent cell is read as `missing` (for a compound field: that cell only, not the whole key) -/
 def fieldValue (idx : List Nat) (missing : Val) (r : Row) : Val :=
-  if idx.any (fun i => r.length ≤ i) then missing
-  else match idx with
-    | [i] => getCell r i
-    | _ => .seq false (idx.map (getCell r))
+  match idx with
+  | [i] => cellOr missing r i
+  | _ => .seq false (idx.map (cellOr missing r))
 
 /-- `select(table, field, where, complement, missing)` on the data rows -/
 def fieldSelect (idx : List Nat) (missing : Val) (p : Val → Bool) (complement : Bool) (rows : List Row) : List Row :=
